@@ -56,8 +56,9 @@ def arggen(name, rng):
 def oracle(chk, n):
     """the property evaluated directly on the REAL code"""
     from aotools.turbulence import atmos_conversions as ac
-    from aotools.astronomy import _astronomy as ast_
+    from aotools.astronomy import _astronomy as astmod
     import aotools
+    import aotools.astronomy
     rng = chk.rng
 
     def rel(a, b):
@@ -65,6 +66,83 @@ def oracle(chk, n):
 
     def bad(key, what, **replay):
         chk.fail(key, what, replay)
+
+    single = {"iso": 0.0, "tau": 0.0}
+    DEF = 500e-9          # the documented default wavelength ("lamda=500.E-9" in every signature, "default 500 nm")
+
+    def defaults(cn2, r0, s, m, band, h, vv, mask, px, t):
+        """calls with the wavelength / band OMITTED.  Inconsistent defaults inside a pair break the property (inverse pair,
+        composite = composition, single layer); a default that merely differs from the documented 500 nm / 'V' while all
+        functions agree is a model matter (correspondence)"""
+        pairs = [("cn2_to_r0", "r0_to_cn2", cn2), ("r0_to_cn2", "cn2_to_r0", r0), ("r0_to_seeing", "seeing_to_r0", r0),
+                 ("seeing_to_r0", "r0_to_seeing", s), ("cn2_to_seeing", "seeing_to_cn2", cn2), ("seeing_to_cn2", "cn2_to_seeing", s)]
+        for f, g, x in pairs:
+            y = getattr(ac, g)(getattr(ac, f)(x))
+            if not rel(y, x):
+                bad("inverse-default:%s∘%s" % (g, f), "%s(%s(x)) = %r ≠ x = %r with both wavelengths omitted" % (g, f, y, x), f=f, g=g, x=x, got=y)
+            if not rel(getattr(ac, f)(x), getattr(ac, f)(x, DEF)):
+                chk.broke("correspondence", "%s(x) ≠ %s(x, 500e-9): the default wavelength is no longer the documented 500 nm "
+                          "(x=%r: %r vs %r)" % (f, f, x, getattr(ac, f)(x), getattr(ac, f)(x, DEF)))
+        if not rel(ac.cn2_to_seeing(cn2), ac.r0_to_seeing(ac.cn2_to_r0(cn2))):
+            bad("composite-default:cn2_to_seeing", "cn2_to_seeing(x) ≠ r0_to_seeing(cn2_to_r0(x)) with the wavelengths omitted, x=%r" % cn2, cn2=cn2)
+        if not rel(ac.seeing_to_cn2(s), ac.r0_to_cn2(ac.seeing_to_r0(s))):
+            bad("composite-default:seeing_to_cn2", "seeing_to_cn2(x) ≠ r0_to_cn2(seeing_to_r0(x)) with the wavelengths omitted, x=%r" % s, seeing=s)
+        # single layer with every wavelength omitted
+        c1, h1, v1 = numpy.array([cn2]), numpy.array([h]), numpy.array([vv])
+        r0d = ac.cn2_to_r0(cn2)
+        ci = float(ac.isoplanaticAngle(c1, h1)) * math.pi / (180 * 3600) * h / r0d
+        ct = float(ac.coherenceTime(c1, v1)) * vv / r0d
+        if not abs(ci - 0.314) <= 0.002:
+            bad("single-layer-default:isoplanatic", "isoplanaticAngle([cn2],[h])·h/cn2_to_r0(cn2) = %r, not 0.314±0.002, with the wavelengths "
+                "omitted (cn2=%r h=%r)" % (ci, cn2, h), cn2=cn2, h=h)
+        if not abs(ct - 0.314) <= 0.002:
+            bad("single-layer-default:coherence", "coherenceTime([cn2],[v])·v/cn2_to_r0(cn2) = %r, not 0.314±0.002, with the wavelengths "
+                "omitted (cn2=%r v=%r)" % (ct, cn2, vv), cn2=cn2, v=vv)
+        for fn, x2 in ((ac.isoplanaticAngle, h1), (ac.coherenceTime, v1), (ac.rytov_variance, h1)):
+            if not rel(float(fn(c1, x2)), float(fn(c1, x2, DEF))):
+                chk.broke("correspondence", "%s(cn2, x) ≠ %s(cn2, x, 500e-9): the default wavelength is no longer the documented 500 nm"
+                          % (fn.__name__, fn.__name__))
+        # photometric default band
+        back = astmod.flux_to_magnitude(astmod.magnitude_to_flux(m))
+        if not abs(back - m) <= 1e-9 * max(1, abs(m)):
+            bad("inverse-default:flux_to_magnitude∘magnitude_to_flux", "flux_to_magnitude(magnitude_to_flux(m)) = %r ≠ m = %r with the band "
+                "omitted" % (back, m), m=m)
+        for fn, a0, a1 in (("magnitude_to_flux", astmod.magnitude_to_flux(m), astmod.magnitude_to_flux(m, "V")),
+                           ("flux_to_magnitude", astmod.flux_to_magnitude(1e6), astmod.flux_to_magnitude(1e6, "V")),
+                           ("photons_per_band", astmod.photons_per_band(m, mask, px, t), astmod.photons_per_band(m, mask, px, t, "V"))):
+            if not rel(a0, a1):
+                chk.broke("correspondence", "%s without a band ≠ %s(…, 'V'): the default band is no longer the documented 'V'" % (fn, fn))
+
+    def arrays(lam):
+        """the converters on NumPy arrays (any shape; wavelength a scalar or an array of the same shape): inverse pairs hold
+        element-wise"""
+        nprng = numpy.random.default_rng(rng.getrandbits(32))
+        shape = tuple(rng.randint(1, 4) for _ in range(rng.randint(1, 2)))
+        L = lam if rng.random() < 0.5 else 10 ** nprng.uniform(-6.5, -5, shape)
+        chk.count("array-args:rank%d:%s" % (len(shape), "scalar-λ" if numpy.ndim(L) == 0 else "array-λ"))
+        X = {"cn2": 10 ** nprng.uniform(-16, -11, shape), "r0": 10 ** nprng.uniform(-2, 0.3, shape), "seeing": 10 ** nprng.uniform(-1, 0.7, shape)}
+        pairs = [("cn2_to_r0", "r0_to_cn2", "cn2"), ("r0_to_cn2", "cn2_to_r0", "r0"), ("r0_to_seeing", "seeing_to_r0", "r0"),
+                 ("seeing_to_r0", "r0_to_seeing", "seeing"), ("cn2_to_seeing", "seeing_to_cn2", "cn2"), ("seeing_to_cn2", "cn2_to_seeing", "seeing")]
+        for f, g, k in pairs:
+            x = X[k]
+            try:
+                y = numpy.asarray(getattr(ac, g)(getattr(ac, f)(x, L), L))
+            except Exception as ex:     # noqa: BLE001
+                bad("inverse:array:%s∘%s" % (g, f), "%s(%s(array)) raised %s: %s" % (g, f, type(ex).__name__, ex), f=f, g=g, x=x.tolist())
+                continue
+            if y.shape != x.shape or not numpy.allclose(y, x, rtol=RT, atol=0):
+                bad("inverse:array:%s∘%s" % (g, f), "%s(%s(X,λ),λ) ≠ X element-wise for an array X of shape %s" % (g, f, shape),
+                    f=f, g=g, x=x.tolist(), lamda=numpy.asarray(L).tolist())
+            # … and agree with the scalar calls
+            one = numpy.array([getattr(ac, f)(float(xx), float(ll)) for xx, ll in zip(x.ravel(), numpy.broadcast_to(L, shape).ravel())])
+            if not numpy.allclose(numpy.asarray(getattr(ac, f)(x, L)).ravel(), one, rtol=RT, atol=0):
+                bad("array:" + f, "%s(array) differs from the scalar calls for shape %s" % (f, shape), f=f, x=x.tolist(),
+                    lamda=numpy.asarray(L).tolist())
+        mm = nprng.uniform(-2, 25, shape)
+        b = rng.choice(BANDS)
+        fl = numpy.asarray(astmod.magnitude_to_flux(mm, b))
+        if fl.shape != mm.shape or not numpy.allclose(fl * 100 ** (mm / 5), astmod.magnitude_to_flux(0.0, b), rtol=RT, atol=0):
+            bad("array:magnitude_to_flux", "magnitude_to_flux(array, %r) is not flux(0)·100^(-m/5) element-wise" % b, m=mm.tolist(), band=b)
 
     for it in range(n):
         chk.oracle_cases += 1
@@ -112,8 +190,10 @@ def oracle(chk, n):
         if not abs(got - r0) <= 1e-7 * r0:
             bad("inverse:r0_from_slopes∘slope_variance_from_r0", "r0_from_slopes(slopes of variance slope_variance_from_r0(r0))=%r ≠ r0=%r"
                 % (got, r0), r0=r0, wavelength=lam, subapDiam=d, nframes=nfr)
-        # photometry
+        # photometry (the private module, the sub-package and the package-level names in turn)
         band, m = rng.choice(BANDS), rng.uniform(-2, 25)
+        ast_ = (astmod, aotools.astronomy, aotools)[it % 3]
+        chk.count("photometry-via:" + ("_astronomy", "aotools.astronomy", "aotools")[it % 3])
         fl = ast_.magnitude_to_flux(m, band)
         if not abs(ast_.flux_to_magnitude(fl, band) - m) <= 1e-9 * max(1, abs(m)):
             bad("inverse:flux_to_magnitude∘magnitude_to_flux", "band %s m=%r round trip gives %r" % (band, m, ast_.flux_to_magnitude(fl, band)),
@@ -136,15 +216,27 @@ def oracle(chk, n):
             if not rel(args(mask, 2 * px, t), 4 * b0):
                 bad("linear-area-px:" + fn, "%s not proportional to pixel area" % fn, m=m, band=band, px=px, t=t)
         # single layer
+        # the property asks for 0.314 "to the rounding of the published constants": the two dimensionless ratios iso·h/r0 and
+        # tau·v/r0 must lie within ±0.002 of 0.314 (theorem cθ_approx: the code's constants give 0.31425…) and be the SAME
+        # number for both functions (1e-9); no particular closed form of the constant is demanded
         h, vv = logu(rng, 10, 2e4), logu(rng, 1, 60)
-        cth = 0.0581 * (0.423 * 4 * math.pi ** 2) ** 0.6
         r0l = ac.cn2_to_r0(cn2, lam)
-        iso = ac.isoplanaticAngle(numpy.array([cn2]), numpy.array([h]), lam)
-        if not rel(iso, cth * r0l / h * 180 * 3600 / math.pi):
-            bad("single-layer:isoplanatic", "isoplanaticAngle([cn2],[h]) ≠ c·r0/h at cn2=%r h=%r λ=%r" % (cn2, h, lam), cn2=cn2, h=h, lamda=lam)
-        tau = ac.coherenceTime(numpy.array([cn2]), numpy.array([vv]), lam)
-        if not rel(tau, cth * r0l / vv):
-            bad("single-layer:coherence", "coherenceTime([cn2],[v]) ≠ c·r0/v at cn2=%r v=%r λ=%r" % (cn2, vv, lam), cn2=cn2, v=vv, lamda=lam)
+        iso = float(ac.isoplanaticAngle(numpy.array([cn2]), numpy.array([h]), lam))
+        tau = float(ac.coherenceTime(numpy.array([cn2]), numpy.array([vv]), lam))
+        ci, ct = iso * math.pi / (180 * 3600) * h / r0l, tau * vv / r0l
+        single["iso"] = max(single["iso"], abs(ci - 0.314))
+        single["tau"] = max(single["tau"], abs(ct - 0.314))
+        if not abs(ci - 0.314) <= 0.002:
+            bad("single-layer:isoplanatic", "isoplanaticAngle([cn2],[h])·h/r0 = %r, not 0.314±0.002, at cn2=%r h=%r λ=%r" % (ci, cn2, h, lam),
+                cn2=cn2, h=h, lamda=lam)
+        if not abs(ct - 0.314) <= 0.002:
+            bad("single-layer:coherence", "coherenceTime([cn2],[v])·v/r0 = %r, not 0.314±0.002, at cn2=%r v=%r λ=%r" % (ct, cn2, vv, lam),
+                cn2=cn2, v=vv, lamda=lam)
+        if not rel(ci, ct):
+            bad("single-layer:constants-differ", "isoplanaticAngle·h/r0 = %r but coherenceTime·v/r0 = %r (same published constant) at "
+                "cn2=%r h=%r v=%r λ=%r" % (ci, ct, cn2, h, vv, lam), cn2=cn2, h=h, v=vv, lamda=lam)
+        defaults(cn2, r0, s, m, band, h, vv, mask, px, t)
+        arrays(lam)
         # integration axis = loop over profiles, any rank and axis
         rank = rng.randint(1, 3)
         shape = tuple(rng.randint(1, 4) for _ in range(rank))
@@ -153,19 +245,33 @@ def oracle(chk, n):
         C = 10 ** nprng.uniform(-16, -12, shape)
         H = 10 ** nprng.uniform(1, 4, shape)
         chk.count("axis:rank%d" % rank)
+        # the axis is given as a non-negative or as the equivalent negative index; the heights / wind speeds have the full shape
+        # or are ONE vector shared by all profiles (broadcast along the integration axis)
+        axis_arg = axis if rng.random() < 0.5 else axis - rank
+        hmode = rng.choice(["full", "full", "shared"])
+        chk.count("axis:" + ("negative" if axis_arg < 0 else "non-negative"))
+        chk.count("axis:h-" + hmode)
+        Hfull = H
+        if hmode == "shared":
+            vec = H[tuple(slice(None) if k == axis else 0 for k in range(rank))]
+            Hfull = numpy.broadcast_to(vec.reshape([shape[k] if k == axis else 1 for k in range(rank)]), shape)
+            H = vec if (axis == rank - 1 and rng.random() < 0.5) else vec.reshape([shape[k] if k == axis else 1 for k in range(rank)])
         for fn in (ac.isoplanaticAngle, ac.coherenceTime, ac.rytov_variance):
-            full = numpy.asarray(fn(C, H, lam, axis=axis))
-            Cm, Hm = numpy.moveaxis(C, axis, -1), numpy.moveaxis(H, axis, -1)
+            full = numpy.asarray(fn(C, H, lam, axis=axis_arg))
+            Cm, Hm = numpy.moveaxis(C, axis, -1), numpy.moveaxis(Hfull, axis, -1)
             loop = numpy.empty(Cm.shape[:-1])
             for idx in numpy.ndindex(*Cm.shape[:-1]):
                 loop[idx] = fn(Cm[idx], Hm[idx], lam)
             if full.shape != loop.shape or not numpy.allclose(full, loop, rtol=RT, atol=0):
-                bad("axis:" + fn.__name__, "%s with axis=%d on shape %s differs from looping over profiles" % (fn.__name__, axis, shape),
-                    fn=fn.__name__, shape=shape, axis=axis, cn2=C.tolist(), h=H.tolist(), lamda=lam)
+                bad("axis:" + fn.__name__, "%s with axis=%d on cn2 shape %s, h shape %s differs from looping over profiles"
+                    % (fn.__name__, axis_arg, shape, H.shape), fn=fn.__name__, shape=shape, axis=axis_arg, cn2=C.tolist(), h=H.tolist(),
+                    lamda=lam)
             if axis == rank - 1:
                 d0 = numpy.asarray(fn(C, H, lam))
                 if d0.shape != loop.shape or not numpy.allclose(d0, loop, rtol=RT, atol=0):
                     bad("axis-default:" + fn.__name__, "%s default axis is not the last axis" % fn.__name__, fn=fn.__name__, shape=shape)
+    chk.notes.append("single layer: worst |iso·h/r0 − 0.314| = %.3g, |tau·v/r0 − 0.314| = %.3g (allowed 0.002; theorem cθ_approx)"
+                     % (single["iso"], single["tau"]))
 
 
 def run(chk):
@@ -174,7 +280,15 @@ def run(chk):
                 "positive arguments; oracle: round trips / scalings / linearity / single-layer constant / axis semantics on the real "
                 "code, rel. tol 1e-9; distinct = distinct argument tuples")
     chk.assumptions = ["Real.rpow/logb/π model Python's ** / log10 / numpy.pi up to IEEE rounding",
-                       "NumPy axis semantics are exercised by the oracle only (ranks 1-3, every axis)",
+                       "NumPy axis semantics are exercised by the oracle only (ranks 1-3, every axis as a non-negative and as a negative index, "
+                       "heights / wind speeds of full shape or one vector broadcast over all profiles)",
+                       "default arguments (lamda=500e-9, waveband='V') are invisible to the translated model (T1 translates bodies, "
+                       "every theorem quantifies over an explicit wavelength): they are exercised by the oracle only — omitted-"
+                       "wavelength round trips / composites / single-layer ratios are property clauses, f(x) == f(x, 500e-9) and "
+                       "f(m) == f(m, 'V') are correspondence clauses",
+                       "single-layer clause: 0.314 ± 0.002 as the property states ('to the rounding of the published constants'); "
+                       "the exact closed form 0.0581·(0.423·4π²)^0.6 is a theorem about the model, not an oracle demand",
+                       "array arguments of the converters are exercised by the oracle only (ranks 1-2, scalar or array wavelength)",
                        "r0_from_slopes: the theorem covers its scalar kernel; the variance/mean reduction is exercised by the oracle"]
     meta = t1check.regenerate(chk)
     chk.build_and_audit("AoVerif.Props.C17", "AoVerif.Props.C17", REQUIRED)
